@@ -399,6 +399,53 @@ fn run(ctx: &mut Ctx) {
         }
     }
 
+    // ---- 5f. nested FORKED whose parameter halves START equal and differ later (or are equal in value but written
+    // differently): a shortcut that compares only the first parameter of each half shows only here
+    {
+        let mut rng = ctx.rng(23);
+        unitary_case(ctx, &raw("RX", vec![real(0.3), real(0.7), real(0.3), real(1.9)], &[2, 1, 0], vec![Forked, Forked]), 3);
+        for stack in all_stacks(if quick { 3 } else { 4 }) {
+            let forks = stack.iter().filter(|m| matches!(m, Forked)).count();
+            let extra = stack.iter().filter(|m| !matches!(m, Dagger)).count();
+            if forks < 2 {
+                continue;
+            }
+            for (name, k) in [("RX", 1usize), ("PHASE", 1), ("PSWAP", 2)] {
+                let t = k + extra;
+                if t > 5 {
+                    continue;
+                }
+                let len = 1usize << forks;
+                for variant in 0..4 {
+                    let mut ps: Vec<Expression> = (0..len).map(|i| real(0.2 + 0.37 * i as f64)).collect();
+                    match variant {
+                        0 => ps[len / 2] = ps[0].clone(),
+                        1 => {
+                            ps[len / 4] = ps[0].clone();
+                            ps[3 * len / 4] = ps[len / 2].clone();
+                        }
+                        2 => {
+                            // halves equal in value, the second written with a unary plus
+                            for i in 0..len / 2 {
+                                ps[len / 2 + i] = qvh::expr::prefix(quil_rs::expression::PrefixOperator::Plus, ps[i].clone());
+                            }
+                            ps[len - 1] = real(2.9);
+                        }
+                        _ => {
+                            for i in 0..len / 2 {
+                                ps[len / 2 + i] = ps[i].clone();
+                            }
+                        }
+                    }
+                    let n = t as u64;
+                    let qs = random_placement(&mut rng, t, n);
+                    let g = Gate { name: name.to_string(), parameters: ps, qubits: fixed(&qs), modifiers: stack.clone() };
+                    unitary_case(ctx, &g, n);
+                }
+            }
+        }
+    }
+
     // ---- 5d. beyond 5 qubits (the theorems are for all n): a few modified gates on 6 qubits
     {
         let mut rng = ctx.rng(21);
